@@ -8,7 +8,10 @@ CHECK = {
                  "bit-exact comparison of its stream with an independent integer RANLUX over a seed alphabet, and "
                  "whole runs repeated with the same seed and compared byte for byte - the executable started several times "
                  "AND the simulation object / photon source / re-emission classes used several times inside one process "
-                 "(histories of length 2-3 over the problem alphabet)",
+                 "(histories of length 2-3 over the problem alphabet); the seed of the parameter file enumerated over an alphabet "
+                 "closed under s -> s mod 2^k at simulation level (white-box comparison of the thread generators of the "
+                 "constructed simulation object with RandomGenerator(seed), whole runs of all seeds compared pairwise, and each "
+                 "run compared with a run whose thread-0 generator was replaced by a fresh RandomGenerator(seed))",
     "level_text": "The generator is a small deterministic state machine (12 lagged 48-bit values, borrow, three indices): "
                   "for every seed of the alphabet every position 0..40 (three refill boundaries) is visited, its restart "
                   "image is compared with the state of an independent integer implementation of ranlxd2, it is saved, "
@@ -24,7 +27,14 @@ CHECK = {
                   "history alphabet, DistributedPhotonSource is constructed repeatedly for an alphabet of (sources, weights, "
                   "packet number, grid copies), and every stand-alone consumer of random numbers (56: physical re-emission "
                   "in 18 states x both overloads, fixed-value re-emission x 3 probabilities, 13 spectra, 4 continuous sources) is replayed with the same seed on the same "
-                  "object, on a second object and after all others (outputs and final generator state bit for bit). The state space walked "
+                  "object, on a second object and after all others (outputs and final generator state bit for bit). The seed itself is an input of the simulation, not only of "
+                  "the generator: a list of named seeds around and beyond every integer width (2^k, 2^k+42 for every k <= 30, 2^8/2^16/2^24 "
+                  "-1/+0/+1, 2^31-2, 2^31-1, 16843050 = 2^24+2^16+2^8+42, 1000/1042, ...) is closed under s -> s mod 2^k (k = 1..31) and for every "
+                  "seed of it (i) the real TaskBasedIonizationSimulation is constructed with 1, 2, 3, 4 threads and the state of the generator of "
+                  "thread 0 after the constructor and after initialize() must be exactly that of RandomGenerator(seed), the generator of thread t "
+                  "must differ between different seeds, (ii) the executable is run and no two different seeds (after 0 -> 1) may write the same "
+                  "snapshots - in particular seed s and s mod 2^k -, (iii) the run must equal a run with another seed in the parameter "
+                  "file whose thread-0 generator was replaced by RandomGenerator(seed) after the constructor. The state space walked "
                   "is finite and completely enumerated inside the stated bound, which is why model checking of the state "
                   "machine is the natural level; the whole-run part is exhaustive exploration of a small configuration alphabet.",
     "level_note": "Bound: 337 (quick) / 4 165 (thorough) of the 2^31 seeds with the full walk (600 outputs, save points 0..40), "
@@ -32,24 +42,34 @@ CHECK = {
                   "{constructed, restored} = 10 496 / 20 992 set_seed transitions; 57 024 / 215 424 boundary states injected through the "
                   "restart constructor (alphabet {0,1,2,2^47,2^48-2,2^48-1}, <=2 / <=3 marked positions, both borrows, 12 "
                   "alignments) so that every borrow decision sees exact ties. Nothing is claimed for other seeds beyond the "
-                  "argument in NOTES.md. Whole runs: 10 configurations x 2 (quick) / 3 (thorough) seeds, one thread, on this "
-                  "machine; the HDF5 'Creation time' attribute is the only field excluded from the content comparison, and the "
-                  "byte comparison pins the calendar second with an LD_PRELOAD shim. In one process: 10 configurations x 1 / 2 "
-                  "seeds x (3 consecutive runs + 3 / 10 predecessor histories: 2 / all 9 other problems and the same problem with "
-                  "seed+1) = 100 / 480 simulation runs in 50 / 240 child processes, each first run also compared with the "
+                  "argument in NOTES.md. Whole runs: 10 configurations x seeds {42, 1} + 16843050 for every second configuration (quick) / "
+                  "{42, 1, 16843050, 123456789, 2^31-1} (thorough), one thread, on this machine; the HDF5 'Creation time' attribute is the only field excluded from the content comparison, and the "
+                  "byte comparison pins the calendar second with an LD_PRELOAD shim. In one process: 10 configurations x 1 / 3 "
+                  "seeds (42 / 42, 1, 16843050) x (3 consecutive runs + 3 / 10 predecessor histories: 2 / all 9 other problems and the same problem with "
+                  "seed+1) = 100 / 720 simulation runs in 50 / 360 child processes, each first run also compared with the "
                   "executable; DistributedPhotonSource: 3 grid variants (no copies, 2 copies, 4/2/2 copies) x sources "
                   "{1,2,3,5,7,16} / {1,2,3,4,5,7,8,13,16} x 4 weight patterns x 2 layouts x up to 9 / 13 packet numbers (S, 2S+1, 97S, "
                   "97S+1, 97S+S-1, 1000, 1009, 4099, 65537, ...) = 1 248 / 2 760 inputs (those that would give an entry zero "
                   "packets are outside the class's precondition and skipped, counted), 4 constructions each; consumers: 56 x "
                   "3 / 6 seeds x 4 replays of 3 000 / 20 000 calls. Only repetitions inside one process and one thread are "
-                  "covered, not other drivers (RHD steps) that build the same classes.",
+                  "covered, not other drivers (RHD steps) that build the same classes. Seed at simulation level: 86 named seeds, "
+                  "180 after closure under mod 2^k (quick) / 238 named, 302 closed (thorough); white box: all 10 problems x closed alphabet "
+                  "x {1, 3} threads, the problems ascii-direct and hdf5-fixed-2sources additionally every seed 0..4095 x {1, 2, 3, 4} threads (thorough: "
+                  "the closed alphabet also x {5, 16, 100} threads, and every seed 4096..66000 x {1, 2} threads on ascii-direct); whole runs quick: "
+                  "ascii-direct x closed alphabet (injection for the named seeds), hdf5-fixed-2sources x named seeds (injection for every "
+                  "third) = 266 + 115 runs; thorough: all 10 problems x closed alphabet swept (3 020 runs), injection for every seed on ascii-direct "
+                  "and every second seed on the others (1 661 runs). Seeds outside 0..2^31-1 and negative seeds are "
+                  "not part of the simulation-level alphabet; a non-power-of-two reduction of the seed (s mod 1000) is seen by the white-box and the "
+                  "injection oracle for every seed it changes, by the pairwise comparison only for pairs inside the alphabet (1000/1042 vs 0/42). The comparisons of the per-thread generators and of whole runs with RandomGenerator(seed) are RECORDED, NOT JUDGED (the property does not prescribe how a simulation derives its generators from the seed); judged at simulation level are only: different seeds give different per-thread generator states and different snapshots.",
     "quick_deadline": 90,
-    "thorough_deadline": 600,
+    "thorough_deadline": 900,
     "parts": [
         {"name": "ranlux", "bin": "c13_ranlux", "share": 1.0},
-        {"name": "runs", "bin": "c13_runs", "share": 2.0,
+        {"name": "runs", "bin": "c13_runs", "share": 2.5,
          "needs": [_B + "/plain/CMacIonize", "c13_fixedtime.so"]},
         {"name": "inproc", "bin": "c13_inproc", "share": 1.5,
+         "needs": [_B + "/plain/CMacIonize"]},
+        {"name": "simseed", "bin": "c13_simseed", "share": 2.5,
          "needs": [_B + "/plain/CMacIonize"]},
     ],
     "assumptions": [
@@ -57,6 +77,11 @@ CHECK = {
         "whole runs: same machine, same executable, one thread; interval timers and diagnostics files are not snapshots and are not compared",
         "in-process repetitions: the driver does what CMacIonize.cpp does for --task-based --threads 1 (constructor, initialize, run; "
         "no log object); its first run is compared with the executable's output for every problem",
+        "seed at simulation level: the white-box oracle 'generator of thread 0 == RandomGenerator(seed)' is the stream assignment the "
+        "property's anchor states (seed + thread number); for threads >= 1 only 'different seeds give different generators' is demanded; "
+        "that two threads of one simulation get the same stream for 'random seed: 0' (0+0 -> 1 and 0+1 = 1) is recorded in the evidence but "
+        "is not a violation of a property about one thread",
+        "the white-box constructions use the problem's parameter file with small buffer/task/queue numbers (the object is never run)",
         "between in-process repetitions the C library generators (srand/srandom/srand48) are re-seeded differently: a result that "
         "depends on them is not a function of parameter file and seed",
     ],
